@@ -70,6 +70,65 @@ inline std::vector<Chunk> split(Rng &r, Tree &t, const std::vector<Chunk> &cs, i
 	return out;
 }
 
+// Moves the body of a top-level section item into a file and replaces it by an include statement
+// (include inside a section body).  Only when the section's declaration lists include().
+inline bool split_section_body(Rng &r, Tree &t, Chunk &c, const json &schema_opts)
+{
+	if (c.toks.empty() || c.toks[0].role != "n" || c.toks[0].vt != "sec" || !c.inc.empty() || !c.incs.empty())
+		return false;
+	const json *decl = nullptr;
+	for (auto &o : schema_opts)
+		if (o["n"].get<std::string>() == c.toks[0].opt)
+			decl = &o;
+	if (!decl || !decl->contains("sub"))
+		return false;
+	bool has_inc = false;
+	for (auto &o : (*decl)["sub"])
+		if (o.value("fn", std::string()) == "include")
+			has_inc = true;
+	if (!has_inc)
+		return false;
+	long open_i = -1, close_i = -1;
+	for (size_t i = 0; i < c.toks.size(); i++) {
+		if (c.toks[i].role == "p" && c.toks[i].vt == "secopen" && c.toks[i].depth == 0 && open_i < 0)
+			open_i = (long)i;
+		if (c.toks[i].role == "p" && c.toks[i].vt == "secclose" && c.toks[i].depth == 0)
+			close_i = (long)i;
+	}
+	if (open_i < 0 || close_i <= open_i + 1)
+		return false; // empty body
+	size_t bs = c.toks[open_i].e, be = c.toks[close_i].s;
+	Chunk body;
+	body.t = c.t.substr(bs, be - bs) + "\n";
+	for (long i = open_i + 1; i < close_i; i++) {
+		Tok k = c.toks[i];
+		k.s -= bs;
+		k.e -= bs;
+		k.depth -= 1;
+		body.toks.push_back(k);
+	}
+	std::string base = "body" + std::to_string(t.counter++) + ".conf";
+	t.files["/t/" + base] = {body};
+	t.nest["/t/" + base] = 1;
+	std::string stmt = " include(\"" + target_name(t, base) + "\")\n";
+	Chunk n;
+	n.t = c.t.substr(0, bs) + stmt + c.t.substr(be);
+	for (long i = 0; i <= open_i; i++)
+		n.toks.push_back(c.toks[i]);
+	long shift = (long)stmt.size() - (long)(be - bs);
+	for (size_t i = (size_t)close_i; i < c.toks.size(); i++) {
+		Tok k = c.toks[i];
+		k.s = (size_t)((long)k.s + shift);
+		k.e = (size_t)((long)k.e + shift);
+		n.toks.push_back(k);
+	}
+	n.incs.push_back({bs, bs + stmt.size(), "/t/" + base});
+	n.faulty = c.faulty;
+	c = n;
+	(void)r;
+	return true;
+}
+
 inline json world_of(const Tree &t)
 {
 	json fs = json::array();
